@@ -1,0 +1,87 @@
+//go:build verif
+
+package main
+
+import (
+	"strconv"
+	"strings"
+
+	"mvdan.cc/garble/internal/literals"
+)
+
+// registered through a package-level initializer so that it runs before verif_oracle.go's init
+var _ = func() bool {
+	// seed <hex|->  : sets the -seed bytes directly
+	verifOps["seed"] = func(a []string) string {
+		flagSeed = seedFlag{bytes: verifUnhex(a[0])}
+		return "ok"
+	}
+	// seedset <hex of the flag string> : the real flag parser
+	verifOps["seedset"] = func(a []string) string {
+		var f seedFlag
+		if err := f.Set(string(verifUnhex(a[0]))); err != nil {
+			switch {
+			case strings.Contains(err.Error(), "error decoding seed"):
+				return "err decode"
+			case strings.Contains(err.Error(), "needs at least 8 bytes"):
+				return "err short"
+			}
+			return "err other"
+		}
+		return "ok " + verifHex(f.bytes) + " " + verifHex([]byte(f.String()))
+	}
+	// cfg literals tiny debug debugdir ctrlflow testobf gogarble binid
+	verifOps["cfg"] = func(a []string) string {
+		flagLiterals = verifBool(a[0])
+		flagTiny = verifBool(a[1])
+		flagDebug = verifBool(a[2])
+		flagDebugDir = string(verifUnhex(a[3]))
+		flagControlFlow = verifBool(a[4])
+		literals.TestObfuscator = string(verifUnhex(a[5]))
+		sharedCache.GOGARBLE = string(verifUnhex(a[6]))
+		sharedCache.BinaryContentID = verifUnhex(a[7])
+		return "ok"
+	}
+	// pkg path garbleActionID(32 bytes)
+	verifOps["pkg"] = func(a []string) string {
+		p := &listedPackage{ImportPath: string(verifUnhex(a[0]))}
+		copy(p.GarbleActionID[:], verifUnhex(a[1]))
+		sharedCache.ListedPackages.set(p.ImportPath, p)
+		return "ok"
+	}
+	// hash salt name cls  (cls is for the model only)
+	verifOps["hash"] = func(a []string) string {
+		return verifHex([]byte(hashWithCustomSalt(verifUnhex(a[0]), string(verifUnhex(a[1])))))
+	}
+	// hpkg path name cls
+	verifOps["hpkg"] = func(a []string) string {
+		p, ok := sharedCache.ListedPackages.get(string(verifUnhex(a[0])))
+		if !ok {
+			return "!nopkg"
+		}
+		return verifHex([]byte(hashWithPackage(p, string(verifUnhex(a[1])))))
+	}
+	// gaction input
+	verifOps["gaction"] = func(a []string) string {
+		h := addGarbleToHash(verifUnhex(a[0]))
+		return verifHex(h[:])
+	}
+	// flags forBuildHash
+	verifOps["flags"] = func(a []string) string {
+		var sb strings.Builder
+		appendFlags(&sb, verifBool(a[0]))
+		return verifHex([]byte(sb.String()))
+	}
+	verifOps["magic"] = func(a []string) string { return strconv.FormatUint(uint64(magicValue()), 10) }
+	verifOps["entryoff"] = func(a []string) string { return strconv.FormatUint(uint64(entryOffKey()), 10) }
+	// encbuildid hex32 ; decbuildid str
+	verifOps["encbuildid"] = func(a []string) string {
+		var h [32]byte
+		copy(h[:], verifUnhex(a[0]))
+		return verifHex([]byte(encodeBuildIDHash(h)))
+	}
+	verifOps["decbuildid"] = func(a []string) string {
+		return verifHex(decodeBuildIDHash(string(verifUnhex(a[0]))))
+	}
+	return true
+}()
